@@ -89,6 +89,30 @@ pub fn run_c09(rep: &Report) -> i32 {
                 drive::inflight_end();
                 *local.entry("calls".into()).or_insert(0) += 1;
                 judge(rep, &mut local, pc, g, cfg, "solve", &r.is_ok(), &r_kind(&r), t, budget);
+                // the overflow panic is the recursive solver's documented way out of a search that is
+                // really too deep; the solver must stay usable afterwards: goals that were in flight
+                // at that moment are solved again on the same instance
+                if matches!(&r, Caught::Panic(_, m) if m.contains("overflow depth reached")) {
+                    for g2 in goals.iter().take(10) {
+                        let (r2, _) = solver.solve_budget(&*pc.chalk, &g2.peeled.ugoal, budget);
+                        *local.entry("calls".into()).or_insert(0) += 1;
+                        *local.entry("calls_after_an_overflow_panic".into()).or_insert(0) += 1;
+                        if let Caught::Panic(loc, msg) = &r2 {
+                            if !msg.contains("overflow depth reached") {
+                                rep.violation(Violation {
+                                    property: "C09".into(),
+                                    kind: "panic-after-overflow".into(),
+                                    site: panic_site(loc, msg),
+                                    what: format!(
+                                        "{} panics at {} ({}) on `{}` after the overflow panic of `{}` on the same solver",
+                                        cfg.name(), loc, msg, g2.text, g.text
+                                    ),
+                                    input: json!({"program": pc.text, "history": [g.text], "goal": g2.text, "solver": cfg.name()}),
+                                });
+                            }
+                        }
+                    }
+                }
                 // solve_multiple with a 24-answer cap (SLG only: unimplemented by design on the recursive solver)
                 if cfg.is_slg() && !g.peeled.var_creation.is_empty() {
                     let mut solver = AnySolver::new(*cfg);
